@@ -104,7 +104,7 @@ PROPS.update({
     },
     "C14": {
         "level": "exploration",
-        "parts": [{"engine": "fault", "profile": "c14", "weight": 2}, {"engine": "cli", "profile": "cli", "weight": 1}],
+        "parts": [{"engine": "fault", "profile": "c14", "weight": 3}, {"engine": "cli", "profile": "cli", "weight": 2}, {"engine": "fault", "profile": "c12", "weight": 1}],
         "rule": "worlds: 1..3 contexts with 0..2 up/down/before/after service commands (up fails with p=0.1 per command), 1..5 (thorough 8) tasks spread over them with/without before/after/condition/allow_failure and failing commands, started simultaneously, one after another, or as parallel/chained stages; Finish called once or twice; CLI part: the CLI worlds of C07 with 0..2 contexts (down exactly once at shutdown, after all tasks of all targets, for used contexts, whether the targets succeeded or failed). Schedule space: which goroutine parked at Run entry / Up entry / inside a command proceeds next, including releasing further tasks into Up() while `up` is still running (limbo fast-forward). distinct = canonical event-log hash; all runs non-trivial",
         "assumptions": _INTEG_ASSUME + ["a skipped task may have zero or one before/after hook block; a context whose up failed may or may not get its down commands (statement silent)", "context hook commands are attributed to task executions by goroutine id"],
     },
